@@ -1,21 +1,138 @@
 (* C18 — Michelson text formatting and parsing are inverse.
-   Models: Codec/Printer.v (format.py: the token stream of format_node / is_framed / is_script),
-   Codec/Lexer.v (the PLY lexer of parse.py), Codec/Parser.v (the PLY grammar, its conflict
-   resolution and semantic actions, michelson_to_micheline). *)
+   Models: Codec/Printer.v (format.py: the token stream of format_node / is_framed / is_script, the
+   literal texts json.dumps / str / hex), Codec/Lexer.v (the PLY lexer of parse.py),
+   Codec/Parser.v (the PLY grammar with its conflict resolution and semantic actions,
+   michelson_to_micheline).  Text = list of characters 0..255.
+
+   The formatter's inline / multi-line choice and indentation only decide which white space stands
+   between the tokens; the theorems quantify over EVERY layout [lt] (white space characters, line
+   comments, block comments between the tokens; nothing at all is allowed next to a bracket or a
+   semicolon), so both layouts of micheline_to_michelson are instances.
+
+   Domain [wf_expr e]: primitive tags of tags.py whose names are PRIM tokens (all but the placeholder
+   __CREATE_ACCOUNT__), annotations that are one ANNOT token, and every application with annotations
+   or arguments standing in ARGUMENT position is one that is_framed parenthesises; the root is not a
+   one-element list holding a single parameter/storage/code section.  Integers, strings (all 256
+   characters) and byte strings are unrestricted, nesting is unbounded.
+
+   The faithful model violates the property outside this domain in one way that is a genuine defect
+   of /repo (known finding, see C18_inner_sigil_annot_refuted): an annotation with an inner sigil
+   (%a@b, legal in Octez) is lexed as two annotations.  Hence the main statements carry the suffix
+   _partial.  (A second class, unparenthesised constant / Lambda_rec / Ticket arguments, was found
+   here and repaired in /repo by commit 107d189; the model follows the repaired is_framed.) *)
 From Coq Require Import List ZArith Bool.
 From Coq.Strings Require Import Byte.
 From PV Require Import Base.Bytes Codec.Micheline Codec.Printer Codec.Lexer Codec.Parser.
-From PV Require Import Proofs.Printer_proofs Proofs.Parser_proofs.
+From PV Require Import Proofs.Printer_proofs Proofs.Lexer_proofs Proofs.Parser_proofs.
 Import ListNotations.
 
-(* parsing the token stream the formatter emits gives the expression back: every expression over
-   known primitives whose argument-position applications are ones the formatter parenthesises
-   (wf_expr), any integers, strings, bytes, annotations, nesting *)
-Theorem C18_parse_fmt_tokens : forall e, wf_expr e = true -> parse_tokens (fmt_tokens e) = TNode e.
-Proof. exact parse_tokens_fmt_tokens. Qed.
-Print Assumptions C18_parse_fmt_tokens.
+(* FULL STATEMENT (not provable for the code as it is):
+     forall e lt final, e denotes Michelson code, a type or data ->
+       map snd lt = fmt_tokens e -> layout_ok None lt = true -> forallb wf_filler final = true ->
+       parse_text (render lt final) = TNode e.
+   Proved: the same with [wf_expr e]; missing: the class refuted below. *)
+Theorem C18_parse_format_text_partial : forall e lt final,
+  wf_expr e = true -> map snd lt = fmt_tokens e ->
+  layout_ok None lt = true -> forallb wf_filler final = true ->
+  parse_text (render lt final) = TNode e.
+Proof. exact parse_text_render. Qed.
+Print Assumptions C18_parse_format_text_partial.
 
-(* the parser's fuel (number of tokens + 1) is never exhausted: TopFuel is not a possible answer *)
-Theorem C18_parser_total : forall ts, parse_top ts <> TopFuel.
-Proof. exact parse_top_no_fuel. Qed.
-Print Assumptions C18_parser_total.
+(* the instance "one space between consecutive tokens" as a closed function of e *)
+Theorem C18_parse_format_spaced_partial : forall e,
+  wf_expr e = true -> parse_text (render (spaced (fmt_tokens e)) []) = TNode e.
+Proof.
+  intros e H. apply parse_text_render; [exact H | apply map_snd_spaced | apply layout_ok_spaced | reflexivity].
+Qed.
+Print Assumptions C18_parse_format_spaced_partial.
+
+(* token level: the grammar (greedy annotations and arguments, right-nested SEMI lists flattened,
+   braces, parentheses) inverts the framing / root / sequence rules of format_node *)
+Theorem C18_parse_fmt_tokens_partial : forall e, wf_expr e = true -> parse_tokens (fmt_tokens e) = TNode e.
+Proof. exact parse_tokens_fmt_tokens. Qed.
+Print Assumptions C18_parse_fmt_tokens_partial.
+
+(* the same on named expressions with arbitrary literal texts: only the framing condition matters *)
+Theorem C18_parse_top_fmt_root : forall p,
+  framed_ok p = true -> root_ok p = true -> parse_top (fmt_root p) = TopSome p.
+Proof. exact parse_top_fmt_root. Qed.
+Print Assumptions C18_parse_top_fmt_root.
+
+(* layout independence: lexing the rendering of ANY list of well-formed tokens with ANY choice of
+   white space, newlines and comments between them gives the token list back *)
+Theorem C18_lex_layout_free : forall lt final,
+  layout_ok None lt = true -> forallb wf_token (map snd lt) = true -> forallb wf_filler final = true ->
+  lex (render lt final) = LexOk (map snd lt).
+Proof. exact lex_render. Qed.
+Print Assumptions C18_lex_layout_free.
+
+(* printing one token and lexing it yields the token (negative integers, 0x.., strings with every
+   escape, annotations, primitive names, brackets) *)
+Theorem C18_lex_print_token : forall t, wf_token t = true -> lex (render_token t) = LexOk [t].
+Proof. exact lex_render_token. Qed.
+Print Assumptions C18_lex_print_token.
+
+(* the literal texts are read back: str/int for all integers, json.dumps/json.loads for all
+   strings over the 256 characters, hex for all byte strings; and they are tokens *)
+Theorem C18_literals_read_back : forall (z : Z) (s b : bytes),
+  Z_of_dec (dec_of_Z z) = z /\ json_unescape (json_escape s) = ROk s /\ unhex (hex_of_bytes b) = Some b /\
+  wf_token (TInt (dec_of_Z z)) = true /\ wf_token (TStr (json_escape s)) = true /\
+  wf_token (TByt (hex_of_bytes b)) = true.
+Proof.
+  intros z s b. repeat split.
+  - apply Z_of_dec_of_Z.
+  - apply json_unescape_escape.
+  - apply unhex_hex_of_bytes.
+  - apply dec_of_Z_wf.
+  - apply json_escape_wf.
+  - apply hex_of_bytes_wf.
+Qed.
+Print Assumptions C18_literals_read_back.
+
+(* micheline_to_michelson(wrap=True) puts one pair of parentheses around a text that starts with
+   Pair/Left/Right/Some; michelson_to_micheline strips exactly that pair *)
+Theorem C18_wrap_is_stripped : forall s,
+  strip_parens s = s -> parse_text (c_lparen :: s ++ [c_rparen]) = parse_text s.
+Proof. exact parse_text_wrap. Qed.
+Print Assumptions C18_wrap_is_stripped.
+
+(* fuel is never exhausted: the fuel answers of the lexer and the parser are impossible *)
+Theorem C18_no_fuel_exhaustion : forall s ts, lex s <> LexFuel /\ parse_top ts <> TopFuel.
+Proof. intros s ts. split; [apply lex_no_fuel | apply parse_top_no_fuel]. Qed.
+Print Assumptions C18_no_fuel_exhaustion.
+
+(* ---- the remaining defect class (faithful model of /repo HEAD) ---- *)
+(* nat %a@b is read back as nat %a @b *)
+Theorem C18_inner_sigil_annot_refuted : exists e,
+  framed_ok (to_pnode e) = true /\ parse_text (render (spaced (fmt_tokens e)) []) <> TNode e.
+Proof.
+  exists (NPrim x62 [] [[x25; x61; x40; x62]]). split; [reflexivity|].
+  vm_compute. discriminate.
+Qed.
+Print Assumptions C18_inner_sigil_annot_refuted.
+
+(* ---- non-vacuity ---- *)
+(* PUSH (pair (nat %a) int) (Pair 1 -2 STRING) ; IF { DROP } { } (the string holds a quote and a
+   newline) with annotated types in argument
+   position, a negative integer, escapes, nested and empty sequences *)
+Definition ex_code : node :=
+  NSeq [NPrim x43 [NPrim x65 [NPrim x62 [] [[x25; x61]]; NPrim x5b [] []] [];
+                  NPrim x07 [NInt 1; NInt (-2); NStr [x61; x22; x62; x0a]] []] [];
+        NPrim x2c [NSeq [NPrim x20 [] []]; NSeq []] []].
+Example C18_example_wf : wf_expr ex_code = true.
+Proof. vm_compute. reflexivity. Qed.
+(* a multi-line layout with a comment *)
+Example C18_example_layout :
+  let lt := combine ([] :: repeat [FWs c_lf; FWs c_sp; FLine [x63]; FBlock [x64]] 40) (fmt_tokens ex_code) in
+  map snd lt = fmt_tokens ex_code /\ layout_ok None lt = true /\ parse_text (render lt [FWs c_lf]) = TNode ex_code.
+Proof. vm_compute. repeat split. Qed.
+(* global-constant references, recursive-lambda and ticket literals as arguments are in the domain
+   (since /repo commit 107d189) *)
+Example C18_example_constant_arg :
+  wf_expr (NPrim x07 [NPrim x92 [NStr [x78]] []; NPrim x98 [NSeq []] [];
+                      NPrim x9d [NStr [x4b]; NPrim x62 [] []; NInt 1; NInt 1] []] []) = true.
+Proof. vm_compute. reflexivity. Qed.
+(* outside the domain by design: a root list holding one section prints as the bare section *)
+Example C18_single_section_root :
+  parse_tokens (fmt_tokens (NSeq [NPrim x02 [NSeq []] []])) = TNode (NPrim x02 [NSeq []] []).
+Proof. vm_compute. reflexivity. Qed.
